@@ -27,6 +27,11 @@ func (s *Store) snapshotRevert(revertTo Snapshot) error {
 			" fileNameCurr: %s", revertToFooter.fileName, fileNameCurr)
 	}
 
+	fref := revertToFooter.fileRef()
+	if fref == nil || fref.file == nil {
+		return fmt.Errorf("revert footer has no segments")
+	}
+
 	persistOptions := StorePersistOptions{}
 	footer, err := s.revertToSnapshot(revertToFooter, persistOptions)
 	if err != nil {
@@ -37,8 +42,7 @@ func (s *Store) snapshotRevert(revertTo Snapshot) error {
 		footer.PrevFooterOffset = s.footer.filePos
 	}
 
-	err = s.persistFooter(revertToFooter.SegmentLocs[0].mref.fref.file, footer,
-		persistOptions)
+	err = s.persistFooter(fref.file, footer, persistOptions)
 	if err != nil {
 		footer.DecRef()
 		return err
@@ -56,13 +60,14 @@ func (s *Store) snapshotRevert(revertTo Snapshot) error {
 
 func (s *Store) revertToSnapshot(revertToFooter *Footer, options StorePersistOptions) (
 	rv *Footer, err error) {
-	if len(revertToFooter.SegmentLocs) <= 0 {
-		return nil, fmt.Errorf("revert footer slocs <= 0")
-	}
-
-	mref := revertToFooter.SegmentLocs[0].mref
-	if mref == nil || mref.fref == nil || mref.fref.file == nil {
-		return nil, fmt.Errorf("revert footer parts nil")
+	// A footer without segments of its own is fine (only its child
+	// collections, or nothing at all, were written); the file is then
+	// known through the segments of a child or of the parent.
+	if len(revertToFooter.SegmentLocs) > 0 {
+		mref := revertToFooter.SegmentLocs[0].mref
+		if mref == nil || mref.fref == nil || mref.fref.file == nil {
+			return nil, fmt.Errorf("revert footer parts nil")
+		}
 	}
 
 	slocs := append(SegmentLocs{}, revertToFooter.SegmentLocs...)
